@@ -158,6 +158,7 @@ theorem stopScen_spec (cfg : Cfg) (st : St) (s : Nat) (h : Inv st) :
     · intro f hf e he
       simp only [List.mem_map] at hf
       obtain ⟨g, hg, rfl⟩ := hf
+      simp only [stopFrame] at he
       split at he
       · simp only at he
         split at he
@@ -212,6 +213,7 @@ theorem step_spec (cfg : Cfg) (st : St) (ev : Ev) (h : Inv st) (hs : scopedEvs s
     · intro f hf e he
       simp only [step, doOverride, List.mem_map] at hf ⊢
       obtain ⟨g, hg, rfl⟩ := hf
+      simp only [overrideFrame] at he
       split at he
       · simp only at he
         rcases mem_addSaved _ _ _ _ _ he with h1 | h1
@@ -232,6 +234,7 @@ theorem step_spec (cfg : Cfg) (st : St) (ev : Ev) (h : Inv st) (hs : scopedEvs s
     · intro f hf e he
       simp only [step, doStart, List.mem_map] at hf ⊢
       obtain ⟨g, hg, rfl⟩ := hf
+      simp only [startFrame] at he
       split at he
       · exact h.savedInObjs g hg e he
       · exact h.savedInObjs g hg e he
